@@ -641,6 +641,18 @@ class Interp:
                     else:
                         out += self.ev(e["else"], s1) if e["else"] is not None else [(s1, {"v": "unit"})]
                     continue
+                lab_ = self.pat_label(self.norm_pat(cond["pat"], v))
+                if isinstance(v, dict) and v.get("v") == "hole" and lab_ and all(isinstance(x_, str) and "::" in x_ and "(" not in x_ for x_ in lab_):
+                    # `if let Enum::V(x) = e { A } else { B }` is `match e { Enum::V(x) => A, _ => B }`
+                    pat_ = self.norm_pat(cond["pat"], v)
+                    a = s1.fork()
+                    a.conds = a.conds + ((canon(v), lab_),)
+                    self.bind_pattern(pat_, v, a)
+                    out += self.ev(e["then"], a)
+                    b = s1.fork()
+                    b.conds = b.conds + ((canon(v), ("_",)),)
+                    out += self.ev(e["else"], b) if e["else"] is not None else [(b, {"v": "unit"})]
+                    continue
                 a = s1.fork()
                 a.conds = a.conds + ((canon(v), "matches " + self.pat_canon(cond["pat"])),)
                 self.bind_pattern(cond["pat"], v if v.get("v") != "hole" else H("matched", src(cond["e"]), of=v), a)
@@ -1115,6 +1127,10 @@ class Interp:
                 # `map[&k]` is `*map.get(&k).unwrap()` (Index for maps panics on a missing key)
                 get = {"k": "mcall", "l": e.get("l"), "recv": e["e"], "m": "get", "targs": [], "args": [e["idx"]]}
                 out += self.ev({"k": "mcall", "l": e.get("l"), "recv": get, "m": "unwrap", "targs": [], "args": []}, s1)
+                continue
+            if isinstance(base, dict) and base.get("v") == "mapped" and rx.int_const(e["idx"]) == 0:
+                # `xs[0]` of a collection built element by element: its first element
+                out.append((s1, H("elem-of-mapped", src(e), mapped=base, which="first")))
                 continue
             if not (isinstance(base, dict) and base.get("v") == "list" and not base.get("open") and not base.get("field")):
                 out.append((s1, H("opaque", src(e))))
@@ -1678,6 +1694,19 @@ class Interp:
             clo = e["args"][0]
             body = clo["body"] if clo["body"].get("k") == "block" else {"k": "block", "l": clo.get("l"), "stmts": [{"k": "expr", "e": clo["body"], "semi": True}]}
             return self.ev_for({"k": "for", "l": e.get("l"), "pat": clo["params"][0], "iter": recv, "body": body}, st)
+        if m == "try_for_each" and len(e["args"]) == 1 and e["args"][0].get("k") == "closure" and len(e["args"][0]["params"]) == 1:
+            # ITER.try_for_each(|PAT| BODY) is `for PAT in ITER { BODY?; }` whose first error is the value of the whole
+            clo = e["args"][0]
+            body = {"k": "block", "l": clo.get("l"), "stmts": [{"k": "expr", "l": clo.get("l"), "e": {"k": "try", "l": clo.get("l"), "e": clo["body"]}, "semi": True}]}
+            out = []
+            for s1, _ in self.ev_for({"k": "for", "l": e.get("l"), "pat": clo["params"][0], "iter": recv, "body": body}, st):
+                if st.ret is None and isinstance(s1.ret, dict) and s1.ret.get("v") == "err":
+                    v_ = s1.ret
+                    s1.ret = None
+                    out.append((s1, v_))
+                else:
+                    out.append((s1, {"v": "okunit"}))
+            return out
         # buffer.push_str(X)
         out = []
         for s1, rv in self.ev(recv, st):
@@ -2621,7 +2650,7 @@ def canon(h):
     if k == "len" and isinstance(h.get("of"), dict):
         # a one-to-one map keeps the length
         o_ = h["of"]
-        while isinstance(o_, dict) and o_.get("v") == "mapped" and o_.get("how") == "map" and not o_.get("prefix") and not (set(o_.get("adaptors", [])) - {"rev", "enumerate", "peekable", "cloned"}) and isinstance(o_.get("of"), dict):
+        while isinstance(o_, dict) and o_.get("v") == "mapped" and (o_.get("how") == "map" or (o_.get("how") == "for" and all(not (isinstance(v_, dict) and v_.get("v") == "list") for _, v_ in o_.get("elems", [])))) and not o_.get("prefix") and not (set(o_.get("adaptors", [])) - {"rev", "enumerate", "peekable", "cloned"}) and isinstance(o_.get("of"), dict):
             o_ = o_["of"]
         return "len(%s)" % canon(o_)
     if k in ("name", "cond", "len"):
